@@ -592,7 +592,7 @@ def run(ctx):
     quick = ctx.tier == "quick"
     # embedded cases first (corpus includes the triggers of the listed findings)
     t0 = time.time()
-    cases = corpus() + derivation_cases(rnd, ctx, quick) + gen_cases(rnd, ctx, 1200 if quick else 20000)
+    cases = corpus() + derivation_cases(rnd, ctx, quick) + gen_cases(rnd, ctx, 1200 if quick else 12000)
     for c in cases[:2] + cases[-2:]:
         ctx.sample(c)
     run_cases(ctx, cases, "cases", "C15.Corr.corr_codes (Model.compile_str = parse/compile_str on every text)")
@@ -605,8 +605,12 @@ def run(ctx):
     run_grid(ctx, shards, "exhaustive_le_%d" % top, per_file=1 if quick else 4)
     t2 = time.time()
     win = []
-    for L, n in ((6, 20), (7, 15), (8, 5)) if quick else ((7, 1200), (8, 500), (9, 200)):
-        win += windows(rnd, L, n)
+    budget_left = (80 if quick else 690) - (time.time() - ctx.t0)
+    for L, n in ((6, 20), (7, 15), (8, 5)) if quick else ((7, 500), (8, 200), (9, 100)):
+        win += windows(rnd, L, n if budget_left > (25 if quick else 240) else max(2, n // 10))
+    if budget_left <= (25 if quick else 240):
+        ctx.notes.append("machine slow (%.0f s used before the random windows): number of windows cut to a tenth" % (
+            time.time() - ctx.t0))
     run_grid(ctx, win, "windows", per_file=8 if quick else 40)
     ctx.cov["timing_s"] = dict(embedded_cases=round(t1 - t0, 1), exhaustive_grid=round(t2 - t1, 1),
                                windows=round(time.time() - t2, 1))
